@@ -83,6 +83,47 @@ func genericFixed() error {
 	if rg.Has() || rg.Get() != nil || rg2.Get() != nil {
 		return fmt.Errorf("Resource still present after World.Reset")
 	}
+	// a type that is a component type and a resource type at once (different ids in the two registries):
+	// lookups of one kind between lookups of the other
+	{
+		w2 := ecs.NewWorld()
+		ecs.ComponentID[GA0](&w2)
+		ecs.ComponentID[GA1](&w2)
+		cid := ecs.ComponentID[gRes](&w2)
+		vr := &gRes{V: 9}
+		ecs.AddResource(&w2, vr)
+		if ecs.ComponentID[gRes](&w2) != cid {
+			return fmt.Errorf("component id of a type changed after it was added as a resource")
+		}
+		if got := ecs.GetResource[gRes](&w2); got != vr {
+			return fmt.Errorf("GetResource right after a component lookup of the same type returns %v, the resource added is %v", got, vr)
+		}
+		rid := ecs.ResourceID[gRes](&w2)
+		_ = ecs.ComponentID[gRes](&w2)
+		if rid2 := ecs.ResourceID[gRes](&w2); rid2 != rid {
+			return fmt.Errorf("ResourceID of a type changes with an interleaved ComponentID lookup of the same type: %v, %v", rid, rid2)
+		}
+		_ = ecs.ComponentID[gRes](&w2)
+		gr := generic.NewResource[gRes](&w2)
+		if !w2.Resources().Has(rid) || !gr.Has() {
+			return fmt.Errorf("resource not found after a component lookup of the same type")
+		}
+		_ = ecs.ComponentID[GA0](&w2)
+		if byType := ecs.ResourceTypeID(&w2, reflect.TypeOf(gRes{})); byType != rid {
+			return fmt.Errorf("ResourceID[T] = %v but ResourceTypeID(reflect type of T) = %v for a type that is also a component type", rid, byType)
+		}
+		if n := len(ecs.ResourceIDs(&w2)); n != 1 {
+			return fmt.Errorf("%d resource types registered after adding one resource (its type is also a component type)", n)
+		}
+		if got := ecs.GetResource[gRes](&w2); got != vr {
+			return fmt.Errorf("GetResource returns %v after other lookups, the resource added is %v", got, vr)
+		}
+		e := w2.NewEntity(cid)
+		_ = ecs.ResourceID[gRes](&w2)
+		if !w2.Has(e, ecs.ComponentID[gRes](&w2)) {
+			return fmt.Errorf("component not found after a resource lookup of the same type")
+		}
+	}
 	v4 := &gRes{V: 4}
 	ecs.AddResource(&gg.w, v4)
 	if rg.Get() != v4 || rg2.Get() != v4 {
@@ -196,6 +237,50 @@ func genericRelation() error {
 		return fmt.Errorf("handles differ")
 	} else {
 		gc.w.RemoveEntity(e)
+	}
+	// a filter with a relation and the target given per query, reconfigured between two queries for the
+	// SAME target: each query evaluates the configuration current when it is built
+	{
+		fr := generic.NewFilter1[GRel]().WithRelation(generic.T[GRel]())
+		cnt := func(tg ecs.Entity) int {
+			q := fr.Query(&gg.w, tg)
+			n := q.Count()
+			q.Close()
+			return n
+		}
+		core := func(fl ecs.Filter, tg ecs.Entity) int {
+			rf := ecs.NewRelationFilter(fl, tg)
+			q := gc.w.Query(&rf)
+			n := q.Count()
+			q.Close()
+			return n
+		}
+		if a, b := cnt(t1g), core(ecs.All(gc.rel), t1c); a != b {
+			return fmt.Errorf("relation filter, target per query: generic selects %d, core %d", a, b)
+		}
+		fr.With(generic.T[GX]())
+		if a, b := cnt(t1g), core(ecs.All(gc.rel, gc.x), t1c); a != b {
+			return fmt.Errorf("relation filter reconfigured with With(X) between two queries for the same target: generic selects %d, core %d", a, b)
+		}
+		fr.Without(generic.T[GA0]())
+		wo := ecs.All(gc.rel, gc.x).Without(gc.ids[0])
+		if a, b := cnt(t1g), core(&wo, t1c); a != b {
+			return fmt.Errorf("relation filter reconfigured with Without(A0) between two queries for the same target: generic selects %d, core %d", a, b)
+		}
+		fr2 := generic.NewFilter1[GRel]().WithRelation(generic.T[GRel]())
+		{
+			q0 := gg.w.Query(fr2.Filter(&gg.w, t2g))
+			_ = q0.Count()
+			q0.Close()
+		}
+		fr2.Exclusive()
+		ex := ecs.All(gc.rel).Exclusive()
+		q := gg.w.Query(fr2.Filter(&gg.w, t2g))
+		a := q.Count()
+		q.Close()
+		if b := core(&ex, t2c); a != b {
+			return fmt.Errorf("relation filter made Exclusive between two Filter() calls for the same target: generic selects %d, core %d", a, b)
+		}
 	}
 	// Exchange: the relation is part of the configuration whatever the order of the builder calls
 	for order := 0; order < 3; order++ {
@@ -440,8 +525,14 @@ func shapeCheck[T any](w *ecs.World, seen map[ecs.ID]reflect.Type, seenRes map[e
 }
 
 // genericShapes (C16): every kind of Go type maps to one id through every entry point
+type gShapeOffset1 struct{ A int8 }
+type gShapeOffset2 struct{ A int16 }
+
 func genericShapes() error {
 	w := ecs.NewWorld()
+	// component ids and resource ids of the same type differ from here on
+	ecs.ResourceID[gShapeOffset1](&w)
+	ecs.ResourceID[gShapeOffset2](&w)
 	seen := map[ecs.ID]reflect.Type{}
 	seenRes := map[ecs.ResID]reflect.Type{}
 	checks := []func() error{
